@@ -68,7 +68,14 @@ func (s *badgerStore) CheckAndSaveNonce(ID string, nonce int64) error {
 		}
 
 		if s.nonceExpire > 0 {
-			return setExpiringItem(txn, key, &nonce, s.nonceExpire)
+			// Keep the nonce until it would be rejected as too old anyway: a
+			// nonce ahead of our clock must outlive the time it is ahead by,
+			// and expiry has a resolution of one second.
+			expire := s.nonceExpire + time.Second
+			if ahead := time.Unix(0, nonce).Sub(time.Now()); ahead > 0 {
+				expire += ahead
+			}
+			return setExpiringItem(txn, key, &nonce, expire)
 		}
 		return setItem(txn, key, &nonce)
 	})
